@@ -246,12 +246,12 @@ func init() {
 	register(&CheckSpec{ID: "C01", Patterns: []string{pkgServer},
 		Jobs: func(tier string) []*JobCfg {
 			if tier == "thorough" {
-				return []*JobCfg{pipe(1, 1, 6, allKinds), pipe(1, 2, 10, allKinds), pipe(1, 3, 9, kG|kM|kP|kU|kQ), world(1, 2, 0, 9, kG|kM, fBackErr), world(1, 2, 0, 9, kG|kM|kP, fSplit), world(1, 1, 1, 8, kG|kM|kP, 0), worldO(1, 2, 0, 8, kM|kP, 0), world(1, 2, 0, 8, allKinds, fWide), world(1, 3, 0, 8, allKinds, fBatch), world(1, 2, 1, 8, kG|kM|kP, fMulti|fBatch), noMapOrder(job(pkgServer, "HarnessBig", 0, 5000, 20, 256)), noMapOrder(job(pkgServer, "HarnessBig", 0, 17000, 30, 32768)), noMapOrder(job(pkgServer, "HarnessBig", 0, 17000, 17000, 256)), noMapOrder(job(pkgServer, "HarnessBig", 0, 70000, 5000, 65536))}
+				return []*JobCfg{pipe(1, 1, 6, allKinds), pipe(1, 2, 10, allKinds), pipe(1, 3, 9, kG|kM|kP|kU|kQ), world(1, 2, 0, 9, kG|kM, fBackErr), world(1, 2, 0, 9, kG|kM|kP, fSplit), world(1, 1, 1, 8, kG|kM|kP, 0), worldO(1, 2, 0, 8, kM|kP, 0), world(1, 2, 0, 8, allKinds, fWide), world(1, 3, 0, 8, allKinds, fBatch), world(1, 2, 1, 8, kG|kM|kP, fMulti|fBatch), world(1, 1, 1, 8, kG|kM, fHangup), world(1, 2, 1, 7, kG|kM|kP, fHangup), noMapOrder(job(pkgServer, "HarnessBig", 0, 5000, 20, 256)), noMapOrder(job(pkgServer, "HarnessBig", 0, 17000, 30, 32768)), noMapOrder(job(pkgServer, "HarnessBig", 0, 17000, 17000, 256)), noMapOrder(job(pkgServer, "HarnessBig", 0, 70000, 5000, 65536))}
 			}
-			return []*JobCfg{pipe(1, 1, 6, allKinds), pipe(1, 2, 8, allKinds), world(1, 2, 0, 7, kG|kM, fBackErr), world(1, 2, 0, 7, kG|kP, fSplit), pipe(1, 3, 6, kG|kP|kQ), world(1, 3, 0, 6, kG|kM|kP|kU, fBatch), world(1, 2, 1, 6, kG|kM, fMulti|fBatch), noMapOrder(job(pkgServer, "HarnessBig", 0, 5000, 20, 256)), noMapOrder(job(pkgServer, "HarnessBig", 0, 17000, 30, 32768))}
+			return []*JobCfg{pipe(1, 1, 6, allKinds), pipe(1, 2, 8, allKinds), world(1, 2, 0, 7, kG|kM, fBackErr), world(1, 2, 0, 7, kG|kP, fSplit), pipe(1, 3, 6, kG|kP|kQ), world(1, 3, 0, 6, kG|kM|kP|kU, fBatch), world(1, 2, 1, 6, kG|kM, fMulti|fBatch), world(1, 1, 1, 6, kG|kM, fHangup), noMapOrder(job(pkgServer, "HarnessBig", 0, 5000, 20, 256)), noMapOrder(job(pkgServer, "HarnessBig", 0, 17000, 30, 32768))}
 		},
 		Bounds: func(tier string) string {
-			return "pipelines of 1..3 requests, each of a solver-chosen kind (GET, SET, two-key MGET over one or two nodes, PING, unknown command, wrong arity, QUIT last) with solver-chosen key bytes/owner, every schedule of up to 8 (quick) / 9 (thorough) events; thorough adds a second concurrent client"
+			return "pipelines of 1..3 requests, each of a solver-chosen kind (GET, SET, two-key MGET over one or two nodes, PING, unknown command, wrong arity, QUIT last) with solver-chosen key bytes/owner, every schedule of up to 8 (quick) / 9 (thorough) events; a second concurrent client, one of the two possibly disconnecting at any point with requests in flight (the other client's replies must be unaffected); replies of 5000 and 17000 bytes completing out of order"
 		},
 		Assumptions: []string{worldAssume}, Stubs: []string{stubWorld},
 		Outside: []string{"longer pipelines and schedules, more than two backends/clients, reply contents other than key echoes"}})
@@ -317,13 +317,18 @@ func init() {
 		Outside: []string{"real time, the 200 ms epoll cadence, several separate timeouts in one run"}})
 	register(&CheckSpec{ID: "C13", Patterns: []string{pkgServer},
 		Jobs: func(tier string) []*JobCfg {
-			return []*JobCfg{job(pkgServer, "HarnessC13", 0, 1), job(pkgServer, "HarnessC13", 1, 1), job(pkgServer, "HarnessC13", 0, 2), job(pkgServer, "HarnessC13", 1, 2)}
+			js := []*JobCfg{job(pkgServer, "HarnessC13", 0, 1), job(pkgServer, "HarnessC13", 1, 1), job(pkgServer, "HarnessC13", 0, 2), job(pkgServer, "HarnessC13", 1, 2),
+				noMapOrder(job(pkgServer, "HarnessC13Seq", 8, 1)), noMapOrder(job(pkgServer, "HarnessC13Seq", 4, 2))}
+			if tier == "thorough" {
+				js = append(js, noMapOrder(job(pkgServer, "HarnessC13Seq", 12, 1)), noMapOrder(job(pkgServer, "HarnessC13Seq", 6, 2)))
+			}
+			return js
 		},
 		Bounds: func(tier string) string {
-			return "one redirect step: solver-chosen kind (MOVED/ASK), known or unknown target, single-key request or fragment of a split MGET, first or second position in a two-request pipeline, other node answering before or after; one or two connections per backend node"
+			return "one redirect step: solver-chosen kind (MOVED/ASK), known or unknown target, single-key request or fragment of a split MGET, first or second position in a two-request pipeline, other node answering before or after; one or two connections per backend node; sequences of 8 (thorough 12) requests on one connection each redirected once, and of 4 (thorough 6) requests each redirected twice (B -> C -> A), every redirect MOVED or ASK by the solver's choice, request objects recycled from one request to the next"
 		},
 		Assumptions: []string{"termination is claimed per redirect step (the proxy has no hop limit)"}, Stubs: []string{stubWorld},
-		Outside: []string{"chains of redirects, redirects arriving while the target connection is being dialled unsuccessfully"}})
+		Outside: []string{"chains of more than two redirects, redirects arriving while the target connection is being dialled unsuccessfully"}})
 	register(&CheckSpec{ID: "C04", Patterns: []string{pkgServer},
 		Jobs: func(tier string) []*JobCfg {
 			js := []*JobCfg{job(pkgServer, "HarnessC04", 1, 0, 0), job(pkgServer, "HarnessC04", 0, 0, 1), job(pkgServer, "HarnessC04", 1, 1, 0),
